@@ -1,7 +1,8 @@
 """C11"""
 PROPERTY = "C11"
 LEVEL = "proof"
-FUNCTIONS = []
+FUNCTIONS = ['uxarray.grid.grid.Grid.get_ball_tree',
+    'uxarray.grid.grid.Grid.get_kd_tree']
 STANDINS = ["neighbours"]
 ASSUMPTIONS = []
 EXPLANATION = ""
